@@ -2,6 +2,8 @@ import PygVerif.Generated
 import PygVerif.Model.Selector
 import PygVerif.Model.Proto
 import PygVerif.Model.Doc
+import PygVerif.Model.Listing
+import PygVerif.Model.Skel
 /-!
 # Driver — line protocol between the Python harness and the executable model
 
@@ -48,6 +50,39 @@ def protoOfShort (s : String) : Option Proto :=
 def encParsed (p : Parsed) : String :=
   "\t".intercalate [encStr p.selector, encOpt p.search, encBool p.head, encOpt p.gplus,
     encOpt p.geminiInput, encBool p.badRequest]
+
+def decKind (s : String) : Kind := if s == "d" then .dir else if s == "f" then .file else .other
+
+/-- `ext:line|line&ext:…` (`~` = no lines, `!` = no sidecars) -/
+def decSidecars (s : String) : List (Str × List Str) :=
+  if s == "!" then [] else
+  (s.splitOn "&").map fun it =>
+    match it.splitOn ":" with
+    | [e, ls] => (decStr e, if ls == "~" then [] else (ls.splitOn "|").map decStr)
+    | _ => ([], [])
+
+/-- `sel;kind;size;mtime;ctime;guessmime;guessenc;gtype;sidecars` -/
+def decPop (s : String) : List (Str × PopInfo) :=
+  if s == "~" then [] else
+  (s.splitOn " ").filterMap fun r =>
+    match r.splitOn ";" with
+    | [sel, k, sz, mt, ct, gm, ge, gt, sc] =>
+      some (decStr sel, { stat := { kind := decKind k, size := sz.toNat!, mtime := mt.toNat!, ctime := ct.toNat! },
+                          guess := (decOpt gm, decOpt ge), gtype := decStr gt, sidecars := decSidecars sc })
+    | _ => none
+
+def viewOf (s : String) : View :=
+  match s with
+  | "gopher" => .gopher | "gplusdir" => .gplusDir | "http" => .http | "wap" => .wap
+  | "gemini" => .gemini | _ => .spartan
+
+def mkRenderCfg (srvName : Str) (srvPort : Nat) (absHeaders : Bool) (absEntries : Str) : RenderCfg :=
+  { srv := ⟨srvName, srvPort⟩, iconmapping := Generated.iconMapping, waptop := Generated.waptop,
+    accesskeys := Generated.accesskeys, queryPrefix := Generated.queryPrefix, admin := Generated.gplusAdmin,
+    modDate := fun _ => none, abstractHeaders := absHeaders, abstractEntries := absEntries }
+
+def tstateOf (s : String) : TState :=
+  match s with | "tag" => .tag | "dq" => .attrDq | "sq" => .attrSq | _ => .text
 
 def step (fields : List String) : String :=
   match fields with
@@ -98,6 +133,24 @@ def step (fields : List String) : String :=
   | ["wapadjust", m] => let (t, c) := wapAdjust (decOpt m); encStr t ++ "\t" ++ encBool c
   | ["httpresp", m, lm, ct, body] =>
     encStr (httpResp (if m == "HEAD" then .head else .get) (decOpt lm) (decStr ct) (decStr body))
+  | ["gmlisting", view, gplusReq, srvName, srvPort, base, absH, absE, selfAbs, lines, pop] =>
+    let popTab := decPop pop
+    let popf : Str → Option PopInfo := fun s => (popTab.find? (·.1 == s)).map (·.2)
+    (match gmParse Generated.forbidden Generated.eaexts Generated.defaultMime (decStr base) popf (decList lines) with
+     | none => "CRASH-PARSE"
+     | some es =>
+       let self : Entry := { selector := decStr base,
+                             ea := match decOpt selfAbs with | some a => [(lit "ABSTRACT", a)] | none => [] }
+       match listingBody (mkRenderCfg (decStr srvName) srvPort.toNat! (decBool absH) (decStr absE))
+               (viewOf view) (decBool gplusReq) self es with
+       | none => "CRASH-RENDER"
+       | some b => encStr b)
+  | ["skeleton", st, page] =>
+    let (s, k) := run (tstateOf st) (decStr page)
+    (match s with | .text => "text" | .tag => "tag" | .attrDq => "dq" | .attrSq => "sq") ++ "\t" ++ encStr k
+  | ["httperror", msg] => encStr (emit (httpErrorSegs (decStr msg)))
+  | ["waperror", msg] => encStr (emit (wapErrorSegs (decStr msg)))
+  | ["waptext", ls] => encStr (emit (wapTextSegs (decList ls)))
   | _ => "bad-op"
 
 partial def loop (h : IO.FS.Stream) (out : IO.FS.Stream) : IO Unit := do
